@@ -628,7 +628,7 @@ def c06_5(ctx: Ctx) -> RuleResult:
         guards = [n for n in nodes_in(ic, ast.If) if any(isinstance(x, ast.Call) and isinstance(x.func, ast.Attribute) and x.func.attr == "copy" for s_ in n.body for x in ast.walk(s_))]
         guard_ok = bool(guards)
         for g in guards:
-            gt = norm(X.at(ic, g.test))
+            gt = norm(X.value_at(ic, g.test))
             if gt != ("cmp", "is not", dp, C(None)):
                 guard_ok = False
                 why = f"the copy is made only under `{ast.unparse(g.test)}`: other (non-None) arrays are returned as they are, sharing memory with the caller"
